@@ -206,7 +206,7 @@ def run(F, R, tier):
 
     # ---- R6: near-degenerate series used in the decoupling regime (mH ~ mA ~ mH+) -----------------------
     from .rules_c11 import _series_branches
-    _series_branches(F, R, rule="R6")
+    R.guard(_series_branches, F, R, rule="R6")
 
     # ---- R4: units of the THDM formulas ---------------------------------------------------------
     from .rules_c07 import check_units
